@@ -103,6 +103,19 @@ def run_function(prog, f, args, stubs, max_steps=400):
                 return None
             lab = 'T' if c else 'F'
             nxt = [s for (s, l) in node.succs if l == lab]
+        elif node.kind == 'switch':
+            c = ev(a)
+            if c is None:
+                return None
+            nxt = []
+            for (s, l) in node.succs:
+                if isinstance(l, tuple) and l[0] == 'case' and s.info and s.info[0] == 'case':
+                    cv = int_value(s.info[1])
+                    if cv is not None and not isinstance(cv, str) and cv == c:
+                        nxt = [s]
+                        break
+            if not nxt:
+                nxt = [s for (s, l) in node.succs if l in ('default', 'nodefault')]
         else:
             nxt = [s for (s, l) in node.succs]
         if not nxt:
